@@ -38,8 +38,41 @@ def run(ctx):
                 rep.violation('correspondence', {'property': 'C02', 'kind': 'model-vs-implementation', 'seed': ctx.seed, 'case': c['id'],
                                                  'program': c['text'], 'implementation': (got or '')[:4000],
                                                  'model': (model.get(c['id']) or '')[:4000], 'line': c['line']})
-    cov = {'evaluations': len(cases), 'distinct_nontrivial': len(distinct),
-           'rule': 'type-directed random programs over if/then/else, exitWith, while, for (incl. negative step), forEach, count/select/apply/findIf with code, switch-case-default with fall-through, call, try-catch-throw, scopeName/breakOut, lazy &&/|| — every statement appends to a trace array; each program is run instruction by instruction on the implementation and on the Lean model (per-instruction frame bases + value stack compared) and its trace/globals/value are compared with an independent structured reference interpreter; distinct by program text',
+    # while loops in unscheduled code under a small iteration cap (start verb, cap 7): a loop the cap ends has evaluated its
+    # condition as often as it has run its body; a loop that ends by itself has evaluated it once more
+    import re as _re
+    from ..core import hexf as _hexf
+    wr = ctx.rng.fork('while-cap')
+    wcases = []
+    for i in range(60 if quick else 600):
+        k = 1 + wr.below(12)
+        capped = k >= 7          # after 7 passes the cap ends the loop before the condition is evaluated again
+        cond = wr.choice(['c = c + 1; c <= %d' % k, 'c = c + 1; c < %d' % (k + 1), 'c = c + 1; !(c > %d)' % k])
+        body = wr.choice(['d = d + 1', 'd = d + 1; d', 'd = d + 1; call { d }', 'd = d + 1; if (d > 100) then { d = 0 }'])
+        text = 'c = 0; d = 0; while { %s } do { %s }; done = 1' % (cond, body)
+        cid = 'w%d' % i
+        wcases.append({'id': cid, 'text': text, 'want': (7, 7) if capped else (k + 1, k),
+                       'line': 'start %s %s %s %s %s %s' % (cid, _hexf(text), _hexf('c,d,done'), _hexf('0'), _hexf('7'), _hexf('0'))})
+    wimpl, wmodel = ctx.run_pair([c['line'] for c in wcases], timeout_ms=8000)
+    for c in wcases:
+        got = wimpl.get(c['id']) or ''
+        distinct.add(c['text'])
+        m = _re.search(r' c=(\S+) d=(\S+) done=(\S+)$', got)
+        bad = None
+        if not m or (m.group(1), m.group(2), m.group(3)) != (str(c['want'][0]), str(c['want'][1]), '1'):
+            bad = {'expected': 'condition evaluated %d times, body run %d times, the statement behind the loop reached' % c['want'], 'implementation': got[:300]}
+        if bad:
+            n_or += 1
+            if n_or <= 3:
+                rep.violation('oracle', {'property': 'C02', 'kind': 'while-under-the-iteration-cap', 'seed': ctx.seed, 'case': c['id'], 'program': c['text'],
+                                         'max_loops': 7, 'difference': bad, 'line': c['line']})
+        elif wmodel is not None and got != (wmodel.get(c['id']) or ''):
+            n_mm += 1
+            if n_mm <= 3:
+                rep.violation('correspondence', {'property': 'C02', 'kind': 'model-vs-implementation (while under the iteration cap)', 'seed': ctx.seed, 'case': c['id'],
+                                                 'program': c['text'], 'implementation': got[:1000], 'model': (wmodel.get(c['id']) or '')[:1000], 'line': c['line']})
+    cov = {'evaluations': len(cases) + len(wcases), 'distinct_nontrivial': len(distinct), 'while_loops_under_a_cap': len(wcases),
+           'rule': 'type-directed random programs over if/then/else, exitWith, while, for (incl. negative step), forEach, count/select/apply/findIf with code, switch-case-default with fall-through, call, try-catch-throw, scopeName/breakOut, lazy &&/|| — every statement appends to a trace array; each program is run instruction by instruction on the implementation and on the Lean model (per-instruction frame bases + value stack compared) and its trace/globals/value are compared with an independent structured reference interpreter; distinct by program text; plus while loops in unscheduled code under an iteration cap of 7 (condition and body count their evaluations)',
            'samples': samples, 'oracle_failures': n_or, 'model_mismatches': n_mm, 'reference_decided': n_ref,
            'size_histogram': vc.histogram(cases), 'construct_counts': {'ast': st1, 'str': st2}}
     return rep.finish(cov, ['scalars stay in the exact-integer range of single floats', 'operators outside the modelled fragment are never generated',
